@@ -5,7 +5,11 @@
 #include "verif.h"
 #include "src/express/hash.c"
 
+#ifdef VERIF_TIER_THOROUGH
+#define KN 8
+#else
 #define KN 6
+#endif
 /* C12: the bucket of a key depends on the key's characters and the table geometry only, never on where they are stored */
 void h_hash_noninterference(void)
 {
